@@ -44,18 +44,24 @@ def num_num_arm(fn):
                             if isinstance(d, ast.FunctionDef) \
                                     and d.name == v.id:
                                 return helper_as_expr(d), d.lineno
-    # if/elif form: `if ts == (NUMBER_TYPE, NUMBER_TYPE): return E`
+    # if/elif form: `if ts == (NUMBER_TYPE, NUMBER_TYPE): [if rhs == 0:
+    # return 0] return E` - the arm's statements are folded into one
+    # conditional expression
     for n in ast.walk(fn):
         if isinstance(n, ast.If) and "(NUMBER_TYPE, NUMBER_TYPE)" in \
                 ast.unparse(n.test):
-            for b in n.body:
-                if isinstance(b, ast.Return) and b.value is not None:
-                    return b.value, b.lineno
+            e = stmts_as_expr(n.body)
+            if e is not None:
+                return e, n.lineno
     return None, None
 
 
 def helper_as_expr(d):
-    """`def f(): try: return A except ZeroDivisionError: return B` and plain
+    return stmts_as_expr(d.body)
+
+
+def stmts_as_expr(body):
+    """`try: return A except ZeroDivisionError: return B` and plain
     `if c: return A` chains -> an expression tree over the returns.  A
     try/except is NOT a zero guard (sympy returns zoo instead of raising), so
     only explicit tests survive as IfExp."""
@@ -85,7 +91,7 @@ def helper_as_expr(d):
                 walk(st.body)
                 for h in st.handlers:
                     walk(h.body)
-    walk(d.body)
+    walk(body)
     # fold `if c: return A` followed by `return B`
     out = None
     for r in reversed(rets):
